@@ -10,15 +10,17 @@ pub enum Con { Before(usize), After(usize), Require(usize) }
 pub struct Item { pub marks: Vec<usize>, pub prio: u8, pub cons: Vec<Con> } // prio 0 normal, 1 before_all, 2 after_all
 
 pub fn gen_rules(rng: &mut Rng) -> Vec<Item> {
-    let n = rng.range(0, 9);
-    let nmarks = rng.range(1, 12);
+    // mostly small sets; sometimes large ones (sorting / hashing implementations change behaviour with size)
+    let n = if rng.chance(1, 6) { rng.range(18, 48) } else { rng.range(0, 9) };
+    let nmarks = rng.range(1, 12).max(if n > 9 { n } else { 1 });
     let mut v = vec![];
     for i in 0..n {
         let mut marks = vec![if rng.chance(4, 5) { i } else { rng.below(nmarks) }];
         for _ in 0..rng.below(3) { if rng.chance(1, 2) { marks.push(20 + rng.below(3)); } }
         let prio = match rng.below(6) { 0 => 1, 1 => 2, _ => 0 };
         let mut cons = vec![];
-        let dense = rng.chance(1, 3);
+        let dense = rng.chance(1, 3) && n <= 9;
+        if n > 9 && !rng.chance(1, 6) { v.push(Item { marks, prio, cons }); continue; }
         for _ in 0..rng.below(if dense { 4 } else { 2 }) {
             let m = match rng.below(10) { 0 => 99, 1 => 20 + rng.below(3), _ => rng.below(n.max(1)) };
             cons.push(match rng.below(7) { 0..=2 => Con::Before(m), 3..=5 => Con::After(m), _ => Con::Require(m) });
@@ -94,9 +96,30 @@ pub fn run(n: usize, rng: &mut Rng, rep: &mut Report) {
         let want = spec(&rules);
         rep.stats.case(&input, rules.iter().map(|r| r.cons.len()).sum::<usize>() >= 2);
         rep.stats.count(if got.starts_with("ok") { "ok" } else if got.starts_with("missing") { "missing" } else { "cyclic" });
+        let (got, want) = (if got.starts_with("missing") { "missing".to_string() } else { got }, if want.starts_with("missing") { "missing".to_string() } else { want });
         if got != want {
             let class = if want.starts_with("missing") && got.starts_with("ok") { "missing-not-reported" } else if want == "cyclic" && got.starts_with("ok") { "cycle-not-reported" } else if got.starts_with("PANIC") { "panic" } else { "order" };
             rep.violation(class, input.clone(), format!("ruler answers {} but the specification gives {}", got, want));
+        }
+        // use, remove a mark, use again: the second order must be the canonical order of the remaining rules
+        if !rules.is_empty() && rng.chance(1, 2) {
+            let mut r = build(&rules);
+            let _ = guarded(|| r.iter().copied().collect::<Vec<usize>>());
+            let victim = *rng.pick(&rules[rng.below(rules.len())].marks);
+            r.remove(victim);
+            let got2 = match guarded(|| r.iter().copied().collect::<Vec<usize>>()) {
+                Ok(v) => format!("ok:{}", v.iter().map(|x| x.to_string()).collect::<Vec<_>>().join(",")),
+                Err(e) if e.starts_with("missing dependency") => "missing".into(),
+                Err(e) if e.starts_with("cyclic dependency") => "cyclic".into(),
+                Err(e) => format!("PANIC:{}", e),
+            };
+            // payloads are the original indices: map the specification's answer on the remaining rules back to them
+            let keep: Vec<usize> = (0..rules.len()).filter(|i| !rules[*i].marks.contains(&victim)).collect();
+            let rest: Vec<Item> = keep.iter().map(|i| rules[*i].clone()).collect();
+            let mut want2 = spec(&rest);
+            if let Some(l) = want2.strip_prefix("ok:") { want2 = format!("ok:{}", l.split(',').filter(|x| !x.is_empty()).map(|x| keep[x.parse::<usize>().unwrap()].to_string()).collect::<Vec<_>>().join(",")); }
+            if want2.starts_with("missing") { want2 = "missing".into(); }
+            if got2 != want2 { rep.violation("order-after-remove", format!("{} then use, remove({}), use", input, victim), format!("ruler answers {} but the remaining rules canonically give {}", got2, want2)); }
         }
         // the order is the same on every use
         let r = build(&rules);
